@@ -10,6 +10,8 @@ CONSTANTS
   FixNonRequest = TRUE
   FixLongWs = FALSE
   FarChoices = {FALSE}
+  HasValidator = TRUE
+  NilPointerSkipsValidation = TRUE
 INIT Init
 NEXT Next
 VIEW view
